@@ -7,6 +7,7 @@ import (
 	"fmt"
 	"io"
 	"os"
+	"syscall"
 	"testing"
 
 	"github.com/rs/zerolog"
@@ -72,7 +73,8 @@ type leaf struct {
 }
 
 // error-3 is what writing to a closed file returns
-var errs = []error{nil, errors.New("error-1"), errors.New("error-2"), &os.PathError{Op: "write", Path: "/var/log/app.log", Err: os.ErrClosed}}
+// error-2 is a transient errno reported together with a partial count (a non-blocking descriptor)
+var errs = []error{nil, errors.New("error-1"), &os.SyscallError{Syscall: "write", Err: syscall.EAGAIN}, &os.PathError{Op: "write", Path: "/var/log/app.log", Err: os.ErrClosed}}
 
 func (l *leaf) res(p []byte) (int, error) {
 	o := 0
@@ -81,6 +83,8 @@ func (l *leaf) res(p []byte) (int, error) {
 	}
 	l.calls++
 	switch {
+	case o == 2:
+		return len(p) / 2, errs[o] // the logger reports it; it does not come back with the rest
 	case o > 0:
 		return 0, errs[o]
 	case o == -1:
